@@ -219,6 +219,7 @@ def gen_case(n_max: int, si: int, k: int, seed: int):
 
 def judge(acc: Acc, sk, page, text, exp, bitmap, case) -> None:
     acc.evaluations += 1
+    harness.prime(acc.evaluations)  # another page compiled first, in the same process: must not matter
     c = harness.compile_text(text)
     if c.exc is not None:
         acc.judged += 1
